@@ -26,3 +26,5 @@ func tier() string {
 	}
 	return "quick"
 }
+
+type cidT = cid.Cid
